@@ -7,7 +7,7 @@ with their build output) with one stored patch applied —
 
   breaking controls   selftest/variants/<rule>-*.diff whose rule belongs to the property, and seeded/<prop>-k/patch.diff
                       (each confirmed to break the property while compiling and passing the test suite): must FIRE
-  benign controls     selftest/variants/benign-*.diff and selftest/benign_agents/*.diff touching files the property's
+  benign controls     selftest/variants/benign-*.diff and selftest/benign_agents*/*.diff touching files the property's
                       rules read (behaviour-preserving refactorings): must stay SILENT
 
 The outcome is recorded in the evidence file and printed as CONTROL lines.  It never changes the verdict on /repo
@@ -63,10 +63,10 @@ def select(prop, max_benign=10):
         ctl.append(("breaking", "seed:" + os.path.basename(os.path.dirname(f)), f))
     pf = property_files(prop)
     benign = []
-    for f in sorted(glob.glob(os.path.join(VERIF, "selftest", "variants", "benign-*.diff"))) + sorted(glob.glob(os.path.join(VERIF, "selftest", "benign_agents", "*.diff"))):
+    for f in sorted(glob.glob(os.path.join(VERIF, "selftest", "variants", "benign-*.diff"))) + sorted(glob.glob(os.path.join(VERIF, "selftest", "benign_agents*", "*.diff"))):
         touched = patch_files(f)
         if any(t in pf or any(t.startswith(p.rstrip("/") + "/") for p in pf if p.endswith("/")) for t in touched):
-            benign.append(("benign", "refactor:" + os.path.basename(f)[:-5], f))
+            benign.append(("benign", "refactor:" + os.path.basename(os.path.dirname(f)).replace("benign_agents", "r") + "/" + os.path.basename(f)[:-5], f))
     # spread the benign sample over the list deterministically
     if len(benign) > max_benign:
         step = len(benign) / max_benign
